@@ -269,7 +269,15 @@ def flow_safety_threshold(prog: Program, rep, RID: str):
         raise AnalysisError("flow-safe paths: the statement that reports a window was not found")
     rt = norm(reports[0].test)
     m_ = re.search(r"inexact_excess > ([0-9.e+-]+)", rt)
-    if m_ and float(m_.group(1)) == 0 and not exact_numbers:
+    mge = re.search(r"inexact_excess >= ([0-9.e+-]+)", rt) or re.search(r"inexact_excess (!=) 0\b", rt)
+    if mge and (mge.group(1) == "!=" or float(mge.group(1)) <= 0):
+        rep.violation(RID, key + ":report", f"a window is reported under `{rt}`, i.e. also when its excess flow is 0: a path with excess 0 is avoided by some flow decomposition "
+                      "(and a one-edge window whose lower bound is 0 is in no decomposition path)", f.loc(reports[0]))
+        m_ = None
+    elif mge and 0 < float(mge.group(1)) <= 1e-6:
+        m_ = mge      # `>= eps` is `> eps` up to the tolerance
+        rep.ok(RID, key + ":report", f"a window is reported only with positive excess (`{rt}`)", f.loc(reports[0]))
+    elif m_ and float(m_.group(1)) == 0 and not exact_numbers:
         rep.violation(RID, key + ":float-zero", f"a window is reported when its excess is `> 0` exactly: the excess is a running sum of the caller's (float) flow values, an excess "
                       "that is 0 comes out as 5.55e-17 and the window is reported safe (flows 0.1 + 0.2 vs 0.3)", f.loc(reports[0]))
     elif m_ and 0 <= float(m_.group(1)) <= 1e-6:
@@ -281,7 +289,15 @@ def flow_safety_threshold(prog: Program, rep, RID: str):
         raise AnalysisError(f"flow-safe paths: report condition `{rt}` not understood")
     nonstrict = (c > 0 and isinstance(op, ast.LtE)) or (c < 0 and isinstance(op, ast.GtE))
     strict = (c > 0 and isinstance(op, ast.Lt)) or (c < 0 and isinstance(op, ast.Gt))
-    if shape and nonstrict and not tolerance and not exact_numbers:
+    # When a window is recorded only with positive excess (tolerance included), the recorded windows are exactly the windows of positive excess the
+    # scan visits - whatever the stop test is: excess + rightdiff never increases along an extension (f(next) is one of the out-flows), so a window
+    # extended too far is not recorded, and one extended too little is a shorter safe window.  The stop test then decides only *which* safe windows
+    # are found (running time of the models, C05), not whether a recorded window is safe.
+    report_guarded = bool(m_) and 0 < float(m_.group(1)) <= 1e-6 or (bool(m_) and float(m_.group(1)) == 0 and exact_numbers)
+    if shape and report_guarded and (strict or nonstrict):
+        rep.ok(RID, key, f"windows are recorded only with positive excess, so the stop test `{norm(t)}` decides only which safe windows are found", f.loc(hits[0]),
+               sample={"stop_test": norm(t), "report_test": rt})
+    elif shape and nonstrict and not tolerance and not exact_numbers:
         rep.violation(RID, key + ":float-zero", f"the stop test `{norm(t)}` compares the running excess with 0 exactly: with float flow values an excess that is 0 comes out as "
                       "5.55e-17, the window is extended and reported safe although its excess flow is 0", f.loc(hits[0]))
     elif shape and nonstrict:
